@@ -25,6 +25,7 @@ type runCase struct {
 	max    uint64
 	cbs    []uint32
 	tag2   string
+	latch  byte // CPU.Interrupt on entry (1 = interruptNone, 2 = NMI, 3 = IRQ, 0 = fresh CPU)
 }
 
 func (c runCase) line(variant string) string {
@@ -40,7 +41,7 @@ func (c runCase) line(variant string) string {
 	if c.logger {
 		lg = "1"
 	}
-	return fmt.Sprintf("runu %s %s %x %x %s %s %x %s", variant, lg, c.target, c.max, cb, c.regs.Canon(), c.seed, ovlString(c.ovl))
+	return fmt.Sprintf("runu %s %s %x %x %s %x %s %x %s", variant, lg, c.target, c.max, cb, c.latch, c.regs.Canon(), c.seed, ovlString(c.ovl))
 }
 
 type countingWriter struct {
@@ -118,6 +119,7 @@ func runSystem(c runCase) (o runObs) {
 	s := sharedSys
 	p := &cpuh.Primary{CPU: &s.CPU, Mem: mem}
 	p.Set(c.regs)
+	s.CPU.Interrupt = c.latch
 	s.CPU.OnPC = map[uint32]func(){}
 	for _, a := range c.cbs {
 		a := a
@@ -157,6 +159,7 @@ func runAltLoop(c runCase) (o runObs) {
 	}
 	p := cpuh.NewAlt(mem)
 	p.Set(c.regs)
+	p.CPU.Interrupt = c.latch
 	p.CPU.OnPC = map[uint32]func(){}
 	for _, a := range c.cbs {
 		a := a
@@ -194,6 +197,7 @@ type replay struct {
 	iters  int
 	lines  []string // primary only: DisassembleCurrentPC at the top of every iteration
 	panic  string
+	wdmUnknown bool
 }
 
 func replayCase(c runCase, variant string) (rp replay) {
@@ -207,11 +211,23 @@ func replayCase(c runCase, variant string) (rp replay) {
 	if variant == "p" {
 		p := cpuh.NewPrimary(mem)
 		p.Set(c.regs)
+		p.CPU.Interrupt = c.latch
 		step, get = p.Step, p.Get
-		dis = func() string { return string(p.CPU.DisassembleCurrentPC(nil)) }
+		// the expected trace line is produced on a detached copy of the processor and of the memory, so that this replay
+		// stays free of any tracing (it is the Logger-free reference for C14)
+		dis = func() string {
+			cl := mem.Clone()
+			q := cpuh.NewPrimary(cl)
+			q.Set(p.Get())
+			q.CPU.Interrupt = p.CPU.Interrupt
+			line := string(q.CPU.DisassembleCurrentPC(nil))
+			cpuh.Rebind(p)
+			return line
+		}
 	} else {
 		p := cpuh.NewAlt(mem)
 		p.Set(c.regs)
+		p.CPU.Interrupt = c.latch
 		step, get = p.Step, p.Get
 	}
 	for rp.cycles < c.max {
@@ -225,7 +241,19 @@ func replayCase(c runCase, variant string) (rp replay) {
 			break
 		}
 		opc := mem.Get(pc)
+		nw := len(mem.Writes)
 		n, _, pn := step()
+		if len(rp.pcs) == 0 && (c.latch == 2 || c.latch == 3) && pn == "" {
+			// the first Step entered the interrupt: the instruction executed is the handler's first one, at PRK:PPC
+			g := get()
+			a := uint32(g.PRK)<<16 | uint32(g.PPC)
+			opc = mem.Get(a)
+			for _, w := range mem.Writes[nw:] {
+				if w == a {
+					rp.wdmUnknown = true // the entry sequence or the instruction overwrote its own opcode
+				}
+			}
+		}
 		if pn != "" {
 			rp.panic = pn
 			break
@@ -333,6 +361,13 @@ func genRunCase(r *prng.R) runCase {
 	c.cbs = cb
 	c.logger = r.Chance(40)
 	c.steps = 0
+	c.latch = 1
+	if r.Chance(15) {
+		c.latch = []byte{2, 3, 3, 0}[r.N(4)] // an NMI / IRQ is pending when RunUntil is entered (or the latch holds the zero value)
+		if r.Chance(50) {
+			c.regs.I = 0
+		}
+	}
 	return c
 }
 
@@ -438,7 +473,7 @@ func runRunUntil() {
 			if !eqU32(o.onpc, expOn) {
 				viol("OnPC callback sequence", fmt.Sprintf("%x", expOn), fmt.Sprintf("%x", o.onpc))
 			}
-			if string(o.wdm) != string(rp.wdm) {
+			if string(o.wdm) != string(rp.wdm) && !rp.wdmUnknown {
 				viol("OnWDM operand sequence", fmt.Sprintf("%x", rp.wdm), fmt.Sprintf("%x", o.wdm))
 			}
 			// WDM operand = the byte after the opcode (structured programs are not self-modifying)
